@@ -122,8 +122,8 @@ def write_const_impedance(path, nfreqs, re_ohm, im_ohm=0.0):
 
 
 def laststep_of(cfg):
-    # main.cpp: rotations is cast to float, steps is a double, laststep = ceil(steps*rotations)
-    return int(math.ceil(float(cfg["steps"]) * float(cfg["rotations"])))
+    # main.cpp: laststep = ceil(steps*rotations*(1.0-1e-12)) in doubles
+    return int(math.ceil(float(cfg["steps"]) * float(cfg["rotations"]) * (1.0 - 1e-12)))
 
 
 def cfg_name(cfg):
